@@ -3,15 +3,18 @@
 (* the Sequencer model with MOD = 65536; every client return must name a    *)
 (* hook event with its value inside its own [inv, ret] window (witness      *)
 (* proposed by the harness, verified here), each hook event is claimed at   *)
-(* most once and all are claimed; RollOverCount reads lie between the       *)
-(* counts at their invocation and return.                                   *)
+(* most once and all are claimed; issue order (forced by the values) must    *)
+(* respect real time; RollOverCount reads are judged by call windows: every *)
+(* issue whose call returned before the read began is visible, no issue     *)
+(* whose call began after the read returned is.                             *)
 EXTENDS Naturals, Sequences, TLC, TraceIO
 VARIABLES l, st
 MOD == 65536
 
 Fresh(e, line) == [poisoned |-> FALSE, base |-> line, kind |-> e.kind, start |-> e.start, sn |-> MOD, roc |-> 0, c |-> 0,
-                   nhook |-> 0, lastref |-> 0, ncalls |-> 0, npos |-> 0, maxinv |-> 0]
+                   nhook |-> 0, lastref |-> 0, ncalls |-> 0, npos |-> 0, maxinv |-> 0, maxinv2 |-> 0]
 HookAt(s, k) == Trace[s.base + k]          \* k-th hook event of the current case (1-based)
+CallAt(s, k) == Trace[s.base + s.nhook + k]   \* the call that claimed the k-th issue (calls are listed in issue order)
 RocAfter(s, k) == IF k = 0 THEN 0 ELSE HookAt(s, k).roc
 
 Reason(e, s) ==
@@ -21,27 +24,25 @@ Reason(e, s) ==
              ELSE IF s.kind = "random" /\ e.v >= 32768 THEN "random_start_not_below_2_15"
              ELSE IF e.roc # (IF e.v = 0 THEN 1 ELSE 0) THEN "rollover_count" ELSE "")
          ELSE IF e.v # (s.sn + 1) % MOD THEN "not_successor"
-         ELSE IF e.roc # s.roc + (IF e.v = 0 THEN 1 ELSE 0) THEN "rollover_count"
-         ELSE IF e.c <= s.c THEN "harness_hook_order" ELSE ""
+         ELSE IF e.roc # s.roc + (IF e.v = 0 THEN 1 ELSE 0) THEN "rollover_count" ELSE ""
     [] e.ev = "call" ->
          IF e.ref = 0 THEN "value_not_issued_during_call"
          ELSE IF e.ref > s.nhook THEN "harness_ref_out_of_range"
          ELSE IF e.ref <= s.lastref THEN "value_handed_out_twice"
          ELSE LET h == HookAt(s, e.ref) IN
               IF h.ev # "next" \/ h.v # e.v THEN "harness_bad_witness"
-              ELSE IF ~(e.inv < h.c /\ h.c < e.ret) THEN "value_not_issued_during_call" ELSE ""
+              ELSE IF ~(e.inv < h.c /\ h.c < e.ret) THEN "value_not_issued_during_call"
+              ELSE IF e.ret < s.maxinv THEN "issue_order_contradicts_real_time" ELSE ""   \* an earlier issue went to a call invoked after this one returned
     [] e.ev = "random_many" -> IF e.not_below_2_15 # 0 \/ e.max_first >= 32768 THEN "random_start_not_below_2_15" ELSE ""
     [] e.ev = "lin" ->      \* hook-less: forced linearization order (by value) must respect real time
          IF e.pos # s.npos THEN "harness_lin_order"
          ELSE IF e.v # (s.start + e.pos) % MOD THEN "value_duplicated_or_skipped"
-         ELSE IF e.ret < s.maxinv THEN "issue_order_contradicts_real_time"
+         ELSE IF e.ret < s.maxinv2 THEN "issue_order_contradicts_real_time"
          ELSE ""
-    [] e.ev = "read" ->
-         IF e.lo > s.nhook \/ e.hi > s.nhook \/ e.lo > e.hi THEN "harness_read_refs"
-         ELSE IF e.lo > 0 /\ HookAt(s, e.lo).c > e.inv THEN "harness_read_lo"
-         ELSE IF e.lo < s.nhook /\ HookAt(s, e.lo + 1).c < e.inv THEN "harness_read_lo"
-         ELSE IF e.hi > 0 /\ HookAt(s, e.hi).c > e.ret THEN "harness_read_hi"
-         ELSE IF e.hi < s.nhook /\ HookAt(s, e.hi + 1).c < e.ret THEN "harness_read_hi"
+    [] e.ev = "read" ->     \* judged by call windows: issues 1..lo are visible (call lo returned before the read began), issue hi+1 is not (invoked after the read returned)
+         IF e.lo > s.nhook \/ e.hi > s.nhook \/ s.ncalls # s.nhook THEN "harness_read_refs"
+         ELSE IF e.lo > 0 /\ ~(CallAt(s, e.lo).ev = "call" /\ CallAt(s, e.lo).ref = e.lo /\ CallAt(s, e.lo).ret < e.inv) THEN "harness_read_lo"
+         ELSE IF e.hi < s.nhook /\ ~(CallAt(s, e.hi + 1).ev = "call" /\ CallAt(s, e.hi + 1).ref = e.hi + 1 /\ CallAt(s, e.hi + 1).inv > e.ret) THEN "harness_read_hi"
          ELSE IF e.roc < RocAfter(s, e.lo) \/ e.roc > RocAfter(s, e.hi) THEN "rollover_read_not_linearizable" ELSE ""
     [] e.ev = "end" ->
          IF e.panics # 0 THEN "panic"
@@ -50,9 +51,9 @@ Reason(e, s) ==
     [] OTHER -> "unknown_event"
 Step(e, s) ==
   CASE e.ev = "next" -> [s EXCEPT !.sn = e.v, !.roc = e.roc, !.c = e.c, !.nhook = s.nhook + 1]
-    [] e.ev = "call" -> [s EXCEPT !.lastref = e.ref, !.ncalls = s.ncalls + 1]
+    [] e.ev = "call" -> [s EXCEPT !.lastref = e.ref, !.ncalls = s.ncalls + 1, !.maxinv = IF e.inv > s.maxinv THEN e.inv ELSE s.maxinv]
     [] e.ev = "random_many" -> IF e.not_below_2_15 # 0 \/ e.max_first >= 32768 THEN "random_start_not_below_2_15" ELSE ""
-    [] e.ev = "lin" -> [s EXCEPT !.npos = s.npos + 1, !.maxinv = IF e.inv > s.maxinv THEN e.inv ELSE s.maxinv]
+    [] e.ev = "lin" -> [s EXCEPT !.npos = s.npos + 1, !.maxinv2 = IF e.inv > s.maxinv2 THEN e.inv ELSE s.maxinv2]
     [] OTHER -> s
 
 Init == l = 1 /\ st = [poisoned |-> TRUE]
